@@ -114,6 +114,12 @@ def slices(tier):
             for (before, q2) in (([2.0, 10.0], 30.0), ([1e5, 30.0], 10.0))
             for xl, x in _xl("G6", "3")[:2]
         ]
+        s["G_exotic"] = [
+            _mk(k, h, p, sc, pto, g, 30.0, xl, x, "GX")
+            for g in ("D1", "D5", "U7", "UL6", "M4")
+            for k, h, p, sc, pto in itertools.product(SF_KINDS, ["total", "charm"], PROCS, ["ZM-VFNS", "FFNS3"], [0, 1])
+            for xl, x in (_xl(g, "all") if g in ("U7", "M4") else _xl(g, "4"))
+        ]
         s["E_x1"] = [
             _mk(k, "total", p, sc, 1, "G6", 30.0, "one", 1.0, "E")
             for k, p, sc in itertools.product(SF_KINDS, PROCS, ["ZM-VFNS", "FFNS3"])
@@ -134,6 +140,13 @@ def slices(tier):
             for (before, q2) in (([2.0, 10.0], 30.0), ([1e5, 30.0], 10.0), ([30.0, 30.0], 4.0))
             for xl, x in _xl(g, "3")[:2]
             if not (g == "L7" and (pto == 2 or sc == "FFNS3"))
+        ]
+        s["G_exotic"] = [
+            _mk(k, h, p, sc, pto, g, q2, xl, x, "GX")
+            for g in ("D1", "D5", "U7", "UL6", "M4")
+            for k, h, p, sc, pto, q2 in itertools.product(SF_KINDS, ["total", "charm", "light"], PROCS, ["ZM-VFNS", "FFNS3", "FFN03"], [0, 1, 2], [4.0, 30.0])
+            for xl, x in _xl(g, "all")
+            if not (pto == 2 and (sc != "ZM-VFNS" or q2 == 4.0))
         ]
         s["C_pto23"] = [
             _mk(k, h, p, sc, pto, "G6", q2, xl, x, "C23")
@@ -310,6 +323,6 @@ LEVEL_TEXT = (
 )
 LEVEL_NOTE = (
     "Trusted: SciPy quad, the kernels' reg/sing callables and loc(0+) (C03/C04 decide those), the parton weights of the kernel list (C02/C12/C13), the documented 1e-10 integration borders. "
-    "Grids outside {G6,G9,L7,G13}, x and Q2 outside the lattices, and PTO>=2 massive kernels outside the thorough slice are not covered."
+    "Grids outside {G6,G9,L7,G13,D1,D5,U7,UL6,M4}, x and Q2 outside the lattices, and PTO>=2 massive kernels outside the thorough slice are not covered."
 )
 TECHNIQUE = "bounded-exhaustive enumeration of a configuration x kinematics lattice with state-by-state conformance of the implementation to an executable reference model"
